@@ -677,13 +677,27 @@ pub fn eval(expr: Node) -> Result<Number, Box<dyn error::Error>> {
         }
         Avg(args) => {
             let mut result = 0.0;
+            let mut integers: Option<i128> = Some(0);
             for arg in <Vec<Node> as Clone>::clone(&args).into_iter() {
                 let sub_expr = eval(arg)?;
                 let sub_expr = match sub_expr {
-                    Number::Integer(x) => x as f64,
-                    Number::Float(x) => x,
+                    Number::Integer(x) => {
+                        integers = integers.and_then(|sum| sum.checked_add(x as i128));
+                        x as f64
+                    }
+                    Number::Float(x) => {
+                        integers = None;
+                        x
+                    }
                 };
                 result += sub_expr;
+            }
+            // the mean of Integers is taken exactly when it is an Integer (a sum of doubles loses the low bits above 2^53)
+            if let Some(sum) = integers {
+                let count = args.len() as i128;
+                if count > 0 && sum % count == 0 {
+                    return Ok(Number::Integer((sum / count) as i64));
+                }
             }
             let len = args.len() as f64;
             Ok(Number::from(result / len))
